@@ -86,6 +86,7 @@ EXTRA={
             '//@ loop "for item := list.head" invariant [C03] rank.forward: rank >= 0 && rank <= gRank0 && (len(matches) > 0 ==> rank == 0)',
             '//@ loop "for item := list.tail" invariant [C03] rank.backward: rank >= 0 && rank <= gRank0 && (len(matches) > 0 ==> rank == 0)',
             '//@ requires [C13] rank.norm: rank >= 0 && count >= 0 && maxLength >= 0'],
+ 'addFloat': ['//@ ensures [C02] overflow.inert: valid == VALUE_OVERFLOW ==> !mutated'],
  'getIds': ['//@ modifies storeKey.lastAccess ghost.held ghost.lookupAbsent ghost.now alloc'],
  'restore': ['//@ ensures internal [C06,C13] restored.string: output.data == rstrOK ==> mutated && flagHasOne(newSk.flags, FLAG_KEY_TYPE_STRING) && istype(newSk.payload, []byte) && len(unbox(newSk.payload, []byte)) == len(serializedData) - 14',
             '//@ ensures [C06] refused.inert: output.data != rstrOK ==> !mutated'],
@@ -116,7 +117,10 @@ EXTRA={
             '//@ requires [C13] samelen: len(values) >= len(fieldNames)'],
  'getKey': ['//@ ensures free strsize: len(val) <= 536870912', '//@ ensures [C07,C06] readonly: !mutated'],
  'getKeyBytes': ['//@ ensures free strsize: len(val) <= 536870912', '//@ ensures [C07,C06] readonly: !mutated'],
- 'setRange': ['//@ requires [C13,C02] offset.range: 0 <= offset && offset <= 536870912 && len(substring) <= 536870912 - offset'],
+ 'setRange': ['//@ requires [C13,C02] offset.range: 0 <= offset && offset <= 536870912 && len(substring) <= 536870912 - offset',
+            '//@ ensures [C02] empty.inert: len(substring) == 0 ==> !mutated',
+            '//@ ensures internal [C02] length: mutated ==> istype(newSk.payload, []byte) && result.data == respInt(len(unbox(newSk.payload, []byte))) && len(unbox(newSk.payload, []byte)) >= offset + len(substring) && flagHasOne(newSk.flags, FLAG_KEY_TYPE_STRING)',
+            '//@ ensures internal [C07] keeps.deadline: mutated && exists ==> newSk.expiresAt == old(oldSk.expiresAt)'],
  'setHashTableFields': ['//@ requires [C13] samelen: len(values) >= len(fieldNames)'],
  'deleteHashTableFields': ['//@ loop "for _, fieldName := range fieldNames" invariant [C04] gone: allsel(i, 0, ri1, !m.vdom[fieldNames[i]])',
             '//@ loop "for _, fieldName := range fieldNames" invariant m != nil',
